@@ -69,7 +69,9 @@ for d in sorted(glob.glob(os.path.join(root, 'seeded', '*', 'meta.json'))):
     print("| %s | %s | %s | %s | %s | %s |" % (k, m['breaks_property'], m['what'], m['needs_to_manifest'], fr, caught))
 
 print("\nRound 4 (ids B<n>-<a|b|c>): the sub-agents were asked for what a black-box framework driven by generated inputs")
-print("would plausibly miss - state that builds up, conjunctions of several specific conditions, interactions between objects.\n")
+print("would plausibly miss - state that builds up, conjunctions of several specific conditions, interactions between objects.")
+print("Round 5 (ids H<n>-<a|b|c>): the same request, one angle per sub-agent (encoder, decoder, stream, setters, diagnostics,")
+print("concurrency/re-entrancy/lifetime). Of these 18 only 2 were caught when they arrived; all 18 are caught now.\n")
 print("### 13.3 Property-preserving changes by independent sub-agents (`seeded/S<n>-<a..d>/`): must stay silent\n")
 print("Realistic changes that keep all 19 properties to the letter but alter observable behaviour, written as bait for")
 print("over-strict checks (each with a `show_test.go` that demonstrates the behavioural difference). All 19 quick checks")
